@@ -5,7 +5,7 @@
    in Rust is arbitrary and changes from run to run; the only place it shows is the order of
    DistinctSet::finish, so that output is specified (and compared with the real code) up to
    Permutation.  The element type is any type with a Boolean equality `eqb` (T: Eq + Hash). *)
-From Coq Require Import List ZArith Bool.
+From Coq Require Import List ZArith Bool Permutation Sorted.
 From IB Require Import Combiners.Lawful.
 Import ListNotations.
 
@@ -57,3 +57,71 @@ Section Distinct.
   Definition distinct_set_spec (m : list T) (o : list T) : Prop :=
     NoDup o /\ forall x, In x o <-> In x m.
 End Distinct.
+
+(* ===================== KMVApproxDistinctCount<T> (k minimum values) =====================
+   src/combiners/distinct.rs: KMVAcc { heap: BinaryHeap<NotNan<f64>> (max-heap of the kept k
+   smallest ranks), set: HashSet<NotNan<f64>> (membership test), k }, try_insert, merge_from,
+   finish.  Only MERGEABILITY is treated here; the rank function (SipHash of the value scaled to
+   [0,1)) and the estimator belong to C15, so both are parameters:
+     rank : V -> Z   any function (a rank is compared and tested for equality, nothing else);
+     est  : nat -> option Z -> O   what finish computes from m = set.len() and heap.peek():
+            0 if m = 0, m if m < k, (k-1)/rk otherwise.
+   The max-heap is modelled as the priority queue it implements: the DESCENDING list of its
+   elements (head = the maximum = what peek/pop return). *)
+Open Scope Z_scope.
+
+(* BinaryHeap<NotNan<f64>>::push *)
+Fixpoint maxheap_push (x : Z) (h : list Z) : list Z :=
+  match h with
+  | [] => [x]
+  | y :: r => if y <=? x then x :: h else y :: maxheap_push x r
+  end.
+(* HashSet::remove *)
+Definition zset_remove (x : Z) (s : list Z) : list Z := filter (fun y => negb (y =? x)) s.
+
+Record kmv_acc : Type := { kv_heap : list Z; kv_set : list Z }.
+
+(* KMVAcc::try_insert *)
+Definition kmv_try_insert (k : nat) (a : kmv_acc) (r : Z) : kmv_acc :=
+  if set_mem Z.eqb r (kv_set a) then a            (* !self.set.insert(r) => return *)
+  else
+    let set1 := kv_set a ++ [r] in
+    if (length (kv_heap a) <? k)%nat then
+      {| kv_heap := maxheap_push r (kv_heap a); kv_set := set1 |}
+    else
+      match kv_heap a with
+      | rk :: rest =>                             (* Some(&rk) = self.heap.peek() *)
+          if r <? rk then                         (* pop, set.remove(&old), push r *)
+            {| kv_heap := maxheap_push r rest; kv_set := zset_remove rk set1 |}
+          else                                    (* set.remove(&r) *)
+            {| kv_heap := kv_heap a; kv_set := zset_remove r set1 |}
+      | [] => {| kv_heap := []; kv_set := set1 |} (* peek() = None: only if k = 0 *)
+      end.
+
+(* KMVAcc::merge_from: pop other's heap (largest first) and try_insert each rank *)
+Definition kmv_merge_from (k : nat) (a other : kmv_acc) : kmv_acc :=
+  fold_left (kmv_try_insert k) (kv_heap other) a.
+
+Definition kmv_combiner {V O : Type} (rank : V -> Z) (est : nat -> option Z -> O) (k : nat)
+  : combiner V kmv_acc O := {|
+  c_create := {| kv_heap := []; kv_set := [] |};
+  c_add    := fun a v => kmv_try_insert k a (rank v);
+  c_merge  := kmv_merge_from k;
+  c_finish := fun a => est (length (kv_set a)) (hd_error (kv_heap a));
+  c_build  := fun vs => fold_left (fun a v => kmv_try_insert k a (rank v)) vs
+                                  {| kv_heap := []; kv_set := [] |}
+|}.
+
+(* h is the list of the k smallest distinct ranks among rs, largest first: strictly descending,
+   at most k long, made of ranks of rs, and any rank of rs left out is larger than all of h,
+   which is then full *)
+Definition k_smallest (k : nat) (h : list Z) (rs : list Z) : Prop :=
+  StronglySorted Z.gt h /\ (length h <= k)%nat /\
+  (forall x, In x h -> In x rs) /\
+  (forall x, In x rs -> ~ In x h -> length h = k /\ forall y, In y h -> y < x).
+
+Definition kmv_R {V : Type} (rank : V -> Z) (k : nat) (a : kmv_acc) (m : list V) : Prop :=
+  k_smallest k (kv_heap a) (map rank m) /\ Permutation (kv_set a) (kv_heap a).
+Definition kmv_spec {V O : Type} (rank : V -> Z) (est : nat -> option Z -> O) (k : nat)
+           (m : list V) (o : O) : Prop :=
+  exists h, k_smallest k h (map rank m) /\ o = est (length h) (hd_error h).
